@@ -103,3 +103,22 @@ def epochSharesOK (pre : St) (changes : List (String × String × Nat × Nat)) :
       decide (fair - (Nat.cast n : Rat) * eps (Nat.cast B : Rat) ≤ (Nat.cast paid : Rat)) && decide ((Nat.cast paid : Rat) ≤ fair + eps (Nat.cast B : Rat))))
 
 end Sif.Spec.C18
+
+namespace Sif.Spec.C18
+open Sif Sif.Clp
+
+/-- the epoch hook "pays out the rewards bucket": whatever leaves the bucket of an asset reaches a wallet
+    (wallet mode) or that asset's pool (pool mode) — nothing leaves the bucket without being received.
+    `pre` / `post` = the states before and after the hook. -/
+def epochFlowOK (pre post : St) : Bool :=
+  pre.buckets.all (fun b =>
+    let sym := b.1
+    let left : Nat := b.2 - (post.buckets.get sym).getD 0
+    let accounts := (pre.bank.map (·.1) ++ post.bank.map (·.1)).eraseDups.filter (· != clpAcct)
+    let toWallets : Nat := accounts.foldl (fun a acct => a + (post.bal acct sym - pre.bal acct sym)) 0
+    let toPool : Nat := match pre.getPool sym, post.getPool sym with
+      | some p, some q => q.eBal - p.eBal
+      | _, _ => 0
+    decide ((post.buckets.get sym).getD 0 ≤ b.2) && decide (left ≤ toWallets + toPool))
+
+end Sif.Spec.C18
